@@ -51,7 +51,7 @@ Theorem C08_parent_range : forall ms L, ms <> [] ->
 Proof. exact from_child_markers_range. Qed.
 Print Assumptions C08_parent_range.
 
-(** The code before the repairs (fixed: d49d4e5 source_position; 601fc3a parse errors). *)
+(** The code before the repairs (fixed: d49d4e5 source_position; 0904983 parse errors). *)
 Theorem C08_legacy_refuted :
   exists tf m, fst (m_src m) <= len (tf_source tf) /\
     let v := set_position_marker_legacy tf m in
